@@ -308,7 +308,10 @@ func (nd *NodeDiff) Sort() {
 }
 
 func (nd *NodeDiff) isLessThan(nd2 *NodeDiff) bool {
-	left, right := nd.LeftNode(), nd2.LeftNode()
+	// LeftNode() must not be used here because it also attaches the children of
+	// the diff to the node, which would modify the nodes that are being
+	// compared every time they are sorted.
+	left, right := nd.sortNode(), nd2.sortNode()
 
 	if left.Tag().sortValue != right.Tag().sortValue {
 		return left.Tag().sortValue < right.Tag().sortValue
@@ -324,6 +327,38 @@ func (nd *NodeDiff) isLessThan(nd2 *NodeDiff) bool {
 	rightValue := right.Value()
 
 	return leftValue < rightValue
+}
+
+// leftOrRight returns the Left node or the Right node if there is no Left node.
+func (nd *NodeDiff) leftOrRight() Node {
+	if IsNil(nd.Left) {
+		return nd.Right
+	}
+
+	return nd.Left
+}
+
+// sortNode returns the node that represents this NodeDiff when sorting.
+//
+// Some nodes (such as events) are sorted by the dates in their children. In
+// this case the children of the NodeDiff have to be taken into account as well,
+// but they are attached to a new node so the original node remains untouched.
+func (nd *NodeDiff) sortNode() Node {
+	n := nd.leftOrRight()
+
+	switch n.(type) {
+	case *EventNode, *ResidenceNode:
+		children := append(Nodes{}, n.Nodes()...)
+		for _, child := range nd.Children {
+			children = append(children, child.leftOrRight())
+		}
+
+		sortNode := NewNode(n.Tag(), n.Value(), n.Pointer(), children...)
+
+		return sortNode
+	}
+
+	return n
 }
 
 // LeftNode returns the flattening Node value that favors the left side.
